@@ -642,6 +642,21 @@ theorem gridResult_stable {h h' : Heap} (s : Stable h h') (r : Nat) (key : List 
       · cases e
   · cases e
 
+/-- the array `variable[idx]` returns (also `grid[key]` with `output_grid` off, which is `grid.array[key]`) -/
+def varResult (h : Heap) (r : Nat) (idx : List Idx) : Option (List (Bool × List Nat)) :=
+  match h.objs[r]? with
+  | some (.var _ d) => (readData h d idx).2
+  | _ => none
+
+theorem varResult_stable {h h' : Heap} (s : Stable h h') (r : Nat) (idx : List Idx) {ax : List (Bool × List Nat)}
+    (e : varResult h r idx = some ax) : varResult h' r idx = some ax := by
+  unfold varResult at e ⊢
+  split at e
+  · rename_i id d hk
+    rw [s.1 r _ hk (by intro b i s l hh; cases hh)]
+    exact readData_stable s d idx e
+  · cases e
+
 /-- `grid[key]` allocates exactly the children `gridResult` lists, then the new grid referring to them -/
 theorem ggrid_objs (h : Heap) (r : Nat) (key : List Idx) {l : List Obj} (e : gridResult h r key = some l) :
     (step h (.ggrid r key)).objs
